@@ -344,4 +344,15 @@ def elabProgram (D : Decls) (e : Expr) (τ : STy) : Except String AExpr :=
   | .ok (a, _) => .ok a
   | .error msg => .error msg
 
+/-- elaborate a closed program with no expected type (its type is whatever inference finds;
+    unresolved variables default to unit) -/
+def elabProgramInfer (D : Decls) (e : Expr) : Except String AExpr :=
+  let m : EM AExpr := do
+    let (a, _) ← elabE D [] e
+    solveDeferred
+    zonkA a
+  match m.run {} with
+  | .ok (a, _) => .ok a
+  | .error msg => .error msg
+
 end GluonModel.SurfTy.Elab
